@@ -1,9 +1,51 @@
+"""Builds every harness flavour the quick checks use (offline, from files on disk)."""
+import os
+import subprocess
 import sys
+from concurrent.futures import ThreadPoolExecutor
+
 from . import build
 
+VERIF = build.VERIF
+
+
+def miri_warm(crate):
+    d = os.path.join(VERIF, "harness", crate)
+    env = dict(os.environ)
+    env.update({"CARGO_TARGET_DIR": os.path.join(VERIF, ".targets", "%s-miri" % crate), "MIRIFLAGS": "-Zmiri-tree-borrows", "CARGO_NET_OFFLINE": "true"})
+    lock = os.path.join(d, "Cargo.lock")
+    if not os.path.exists(lock):
+        import shutil
+        shutil.copyfile("/repo/Cargo.lock", lock)
+    args = {"gcmon": ["random", "1", "1", "5", "2"], "strmon": ["random", "1", "1", "2", "--lite"]}[crate]
+    p = subprocess.run(["cargo", "+nightly", "miri", "run", "--offline", "-q", "--"] + args, cwd=d, env=env, stdout=subprocess.PIPE, stderr=subprocess.STDOUT, text=True)
+    return "miri %s: rc=%d" % (crate, p.returncode)
+
+
 def main():
-    build.ensure("bvh", "native", quiet=False)
+    tasks = [("bvh", "native"), ("gcmon", "native"), ("strmon", "native"), ("bvh", "enum"), ("gcmon", "asan"), ("strmon", "asan")]
+    failed = []
+
+    def one(t):
+        try:
+            build.ensure(t[0], t[1], quiet=False, private=False)
+            return "%s/%s ok" % t
+        except build.BuildError as e:
+            failed.append(t)
+            return "%s/%s FAILED\n%s" % (t[0], t[1], str(e)[-800:])
+    with ThreadPoolExecutor(max_workers=3) as ex:
+        for r in ex.map(one, tasks):
+            print(r)
+            sys.stdout.flush()
+        for r in ex.map(miri_warm, ["gcmon", "strmon"]):
+            print(r)
+    # only the native engine harness is indispensable; the others degrade to `inconclusive` sub-checks
+    if ("bvh", "native") in failed:
+        print("setup failed: the engine harness does not build")
+        return 1
     print("setup ok")
+    return 0
+
 
 if __name__ == "__main__":
-    main()
+    sys.exit(main())
